@@ -175,7 +175,10 @@ def handleGrp (path mode peer : String) (now n : Nat)
   if ¬ decide (SentIdsDistinct obs) then
     let bad := obs.sent.find? (fun a => obs.sent.any (fun b => a.2.2 != b.2.2 && a.2.1 == b.2.1))
     let i := (bad.map (·.2.1)).getD default
-    s!"specfail same-id-on-wire-creation-time-{tc i} id={i.source}~{i.time}~{i.seq}"
+    -- the input class: concurrent group / sequential group whose earlier bundles were delivered directly
+    -- (and deleted) before the next one was numbered / sequential group whose bundles are all still stored
+    let cls := if mode == "conc" then "-concurrent" else if peer == "dest" then "-first-already-delivered" else ""
+    s!"specfail same-id-on-wire-creation-time-{tc i}{cls} id={i.source}~{i.time}~{i.seq}"
   -- (b) different bundles are filed under different keys
   else if ¬ decide (StoreKeysDistinct obs) then
     s!"specfail same-store-key-creation-time-{tc ((obs.stored.head?.map (·.1)).getD default)}"
@@ -205,7 +208,7 @@ def handleGrp (path mode peer : String) (now n : Nat)
   -- (d) every bundle is filed, once (after a successful direct delivery the item is gone again)
   else if peer != "dest" && ¬ decide (FiledOnce tags obs) then
     let t := (tags.find? (fun t => (snap.filter (·.2.2 = t)).length != 1)).getD 0
-    s!"specfail bundle-not-filed-creation-time-{tcTag t}"
+    s!"specfail bundle-not-filed-creation-time-{tcTag t}{if mode == "conc" then "-concurrent" else ""}"
   -- (e) at the moment of every transmission the bundle is filed under the transmitted id
   else if sent.any (fun s => s.look != "F") then
     s!"specfail transmitted-copy-not-filed-under-its-id-creation-time-{tc ((sent.find? (fun s => s.look != "F")).map (·.id)).get!}"
